@@ -1,3 +1,4 @@
+import os
 import re
 # Evaluation of contract expressions (speclang AST) over executor states.
 import z3
@@ -365,6 +366,7 @@ class SpecMixin:
             return self.sev(env, e)
         except Unsupported as ex:
             if 'unknown name' in str(ex):
+                if os.environ.get('GVC_DEBUG'): print('DROPPED conjunct (%s): %r' % (ex, e))
                 return z3.BoolVal(True)
             raise
 
